@@ -161,6 +161,128 @@ def acc_cache(c):
     c.canary("canary_impossible", xs[0].f != xs[0].f + 0)
 
 
+class _Prefix:
+    """ghost summary of the contributions accumulated so far: n of them (n >= 0 symbolic), the i-th being G(i) at the
+    arbitrary element, their sum S (S = 0 for n = 0)."""
+
+    def __init__(self, n, G, S):
+        self.n, self.G, self.S = n, G, S
+
+
+class _SymParamList:
+    """nn.ParameterList holding a symbolic number of earlier contributions (ghost prefix) followed by the tensors the
+    real code appends during the contract."""
+
+    is_module = True
+
+    def __init__(self, prefix):
+        self.prefix, self.l = prefix, []
+
+    def sym_iter(self, interp):
+        return [self.prefix] + list(self.l)
+
+    def sym_len(self, interp):
+        from pyvc.sym import SV
+        return SV(self.prefix.n.z + len(self.l))
+
+    def sym_truth(self, interp):
+        return self.sym_len(interp) > 0
+
+    def sym_getattr(self, interp, name):
+        if name == "append":
+            def app(v):
+                self.l.append(v)
+                return self
+            return app
+        if name in ("train", "eval"):
+            return lambda *a: self
+        from pyvc.sym import SymRaise
+        raise SymRaise("AttributeError", f"ParameterList has no attribute {name}")
+
+
+@contract(P, "Accumulator.cache[any number of contributions]", [(M, "Accumulator.pos"), (M, "Accumulator.pos@setter"), (M, "Accumulator.pos@deleter"), (M, "Accumulator.neg"), (M, "Accumulator.neg@setter"), (M, "Accumulator.neg@deleter"), (M, "Accumulator.__init__")], min_obligations=6)
+def acc_cache_unbounded(c):
+    """induction step of the representation invariant for ANY number of contributions: from an accumulator side that
+    holds n >= 0 earlier contributions with sum S (ghost prefix; the cache either not filled or filled by a read),
+    appending v makes the side read S + v, appending None changes nothing, the other side is untouched, delete empties.
+    torch.stack / torch.sum over the list are summarised as 'sum of the prefix (S) plus the finite tail' - the additive
+    law of a sum over a concatenation, assumed; everything else is the real code."""
+    from pyvc.sym import SV, Unsupported
+    tbl = c.interp.namespaces["torch"]._table
+    real_stack, real_sum = tbl["stack"], tbl["sum"]
+
+    def stack(ts, dim=0):
+        ts = list(ts)
+        if ts and isinstance(ts[0], _Prefix):
+            if num(dim) is not None and not (isinstance(dim, int) and dim == 0):
+                raise Unsupported("stack of contributions along another axis")
+            pre, tail = ts[0], ts[1:]
+            if any(isinstance(x, _Prefix) for x in tail):
+                raise Unsupported("two prefixes")
+            n = pre.n.z
+            vals = [x.f for x in tail]
+
+            def f(t):
+                r = pre.G(t)
+                for i, v in enumerate(vals):
+                    r = z3.If(t == n + i, v, r)
+                return r
+
+            out = T(f, "float", SV(n + len(tail)), "first", tail[0].eshape if tail else None)
+            out._summary = (pre, tail)
+            return out
+        return real_stack(ts, dim)
+
+    def tsum(x, dim=None, **kw):
+        if isinstance(x, T) and getattr(x, "_summary", None) is not None:
+            if not (isinstance(dim, int) and dim == 0):
+                raise Unsupported("reduction of the stacked contributions along another axis")
+            pre, tail = x._summary
+            tot = pre.S.z
+            for t in tail:
+                tot = tot + t.f
+            return T(tot, "float", None, None, x.eshape)
+        return real_sum(x, dim, **kw)
+
+    tbl["stack"], tbl["sum"] = stack, tsum
+    a = new_acc(c)
+    side = c.choice("side", ["pos", "neg"])
+    oside = "neg" if side == "pos" else "pos"
+    n, S = c.int("n"), c.real("S")
+    on, oS = c.int("on"), c.real("oS")
+    c.require(n.z >= 0, on.z >= 0, z3.Implies(n.z == 0, S.z == 0), z3.Implies(on.z == 0, oS.z == 0))
+    G = c.func("G", z3.IntSort(), z3.RealSort())
+    oG = c.func("oG", z3.IntSort(), z3.RealSort())
+    c.setattr(a, "_" + side, _SymParamList(_Prefix(n, G, S)))
+    c.setattr(a, "_" + oside, _SymParamList(_Prefix(on, oG, oS)))
+    v, w = c.pw("v"), c.pw("w")
+    # the cache of either side may or may not have been filled by an earlier read
+    if c.choice("cache_filled_before", [True, False]):
+        r0 = c.getattr(a, side)
+        if r0 is None:
+            c.ensure("empty_side_reads_none", n.z == 0)
+        else:
+            c.ensure("invariant_on_entry", z3.And(n.z > 0, r0.f == S.z))
+    if c.choice("other_cache_filled_before", [True, False]):
+        c.getattr(a, oside)
+    c.setattr(a, side, v)
+    r1 = c.getattr(a, side)
+    c.ensure("append_adds_exactly_the_contribution", r1 is not None and r1.f == S.z + v.f)
+    o1 = c.getattr(a, oside)
+    c.ensure("other_side_untouched_by_append", (o1 is None and c.ex.implied(on.z == 0)) or (o1 is not None and c.ex.implied(z3.And(on.z > 0, o1.f == oS.z))))
+    c.setattr(a, side, None)
+    r2 = c.getattr(a, side)
+    c.ensure("none_contributes_nothing", r2 is not None and r2.f == S.z + v.f)
+    c.setattr(a, side, w)
+    r3 = c.getattr(a, side)
+    c.ensure("second_append_adds_again", r3 is not None and r3.f == S.z + v.f + w.f)
+    c.interp.delattr(a, side)
+    c.ensure("deleted_is_none", c.getattr(a, side) is None)
+    o2 = c.getattr(a, oside)
+    c.ensure("other_side_untouched_by_delete", (o2 is None and c.ex.implied(on.z == 0)) or (o2 is not None and c.ex.implied(z3.And(on.z > 0, o2.f == oS.z))))
+    c.canary("canary_append_lost", r1 is not None and r1.f == S.z)
+
+
 @contract(P, "Accumulator.update", [(M, "Accumulator.update"), (M, "Accumulator.forward"), (M, "Accumulator.upperbound"), (M, "Accumulator.lowerbound"), (M, "Accumulator.fullbound"), (M, "Accumulator.clear"), (M, "Accumulator.reduction")])
 def acc_update(c):
     a = new_acc(c)
@@ -289,7 +411,7 @@ def updater(c):
 ASSUMPTIONS = [
     "A1: order independence of the default sum reduction holds in real arithmetic (floating-point rounding is the declared unverified clause)",
     "pow(x, q) is uninterpreted with the axioms 0<=x<=1, q>=1 => 0<=x^q<=x ; x>=0 => x^q>=0 ; x^1 = x",
-    "Accumulator cache invariant is proved for all VALUES over every interleaving of up to three contributions per side with reads/deletes in between (the number of contributions is bounded at 3; arbitrarily long histories follow because setter/deleter always clear the cache of the side they modify, which is what the interleavings exercise)",
+    "Accumulator cache invariant: (a) every interleaving of up to three contributions per side with reads/deletes in between, default sum computed by the engine's own stack/sum; (b) the INDUCTION STEP for any number n >= 0 of earlier contributions per side (contract 'Accumulator.cache[any number of contributions]': a ghost prefix of n tensors with sum S in the real _pos/_neg lists, caches filled or not): appending v makes the side read S + v, None adds nothing, the other side is untouched, delete empties. In (b) torch.stack / torch.sum over a list of symbolic length are summarised by the additive law sum(prefix ++ tail) = S + sum(tail), which is assumed, and the ParameterList holding the prefix is a contract-side model; histories of any length follow by lean/Induction.lean invariant_fold",
     "bounding callables given to Accumulator are pure element-wise functions (uninterpreted)",
 ]
 
@@ -334,11 +456,14 @@ def updatable_apply(c):
     c.canary("canary_nothing_happens", z3.BoolVal(not log and which != "updatesome:none"))
 
 MUTANTS = [
+    dict(file=M, func="Accumulator.pos@setter", old="            self._pos_cache.cache_clear()", new="            pass", contracts=["Accumulator.cache[any number of contributions]"], name="unbounded step: a contribution appended after a read leaves the cached sum stale"),
+    dict(file=M, func="Accumulator.__init__", old="            if len(self._neg):\n                return self.reduce(torch.stack([*self._neg], 0), 0)", new="            if len(self._neg):\n                return self.reduce(torch.stack([*self._pos], 0), 0)", contracts=["Accumulator.cache[any number of contributions]"], name="unbounded step: the negative side reduces the positive list"),
+    dict(file=M, func="Accumulator.neg@setter", old="        if value is not None:\n            self._neg.append(value)\n            self._neg_cache.cache_clear()", new="        if value is not None:\n            self._neg_cache.cache_clear()\n            self._neg.append(value)", contracts=["Accumulator.cache[any number of contributions]"], expect="survives", name="control: cache cleared before the append (no read in between)"),
     dict(file=M, func="Accumulator.upperbound", old="        if not isinstance(self.bind, list):", new="        if not isinstance(self.bind, tuple):", contracts=["Accumulator.update"], name="seed C10g: configuring the upper bound discards a lower bound configured earlier"),
     dict(file=M, func="Updatable.updatesome", old="            self.updater(p, **kwargs)\n            if clear:\n                getattr(self.updater, p).clear(**kwargs)", new="            self.updater(p, **kwargs)\n        if clear:\n            getattr(self.updater, p).clear(**kwargs)", contracts=["Updatable.update_and_updatesome"], name="seed C10f: only the last named parameter is cleared"),
     dict(file=M, func="Updatable.update", old="            if clear:\n                self.updater.clear(**kwargs)", new="            if not clear:\n                self.updater.clear(**kwargs)", contracts=["Updatable.update_and_updatesome"], name="update: clear flag inverted"),
-    dict(file=M, func="Accumulator.neg@setter", old="self._neg_cache.cache_clear()", new="self._pos_cache.cache_clear()", contracts=["Accumulator.cache", "Accumulator.update"], name="seed C10: neg setter clears the wrong cache"),
-    dict(file=M, func="Accumulator.pos@deleter", old="self._pos_cache.cache_clear()", new="pass", contracts=["Accumulator.cache", "Updater"]),
+    dict(file=M, func="Accumulator.neg@setter", old="self._neg_cache.cache_clear()", new="self._pos_cache.cache_clear()", contracts=["Accumulator.cache", "Accumulator.cache[any number of contributions]", "Accumulator.update"], name="seed C10: neg setter clears the wrong cache"),
+    dict(file=M, func="Accumulator.pos@deleter", old="self._pos_cache.cache_clear()", new="pass", contracts=["Accumulator.cache", "Accumulator.cache[any number of contributions]", "Updater"]),
     dict(file=M, func="Accumulator.update", old="return self.bind[0](param, pos) - self.bind[1](param, neg)", new="return self.bind[0](param, pos) + self.bind[1](param, neg)", contracts=["Accumulator.update"]),
     dict(file=M, func="Accumulator.update", old="return self.bind[0](param, pos) - self.bind[1](param, neg)", new="return self.bind[1](param, pos) - self.bind[0](param, neg)", contracts=["Accumulator.update"]),
     dict(file=M, func="Accumulator.clear", old="        del self.neg", new="        pass", contracts=["Accumulator.update"]),
